@@ -1,13 +1,13 @@
 package main
 
 import (
-	"strings"
-	"fmt"
-	"os"
 	"bytes"
 	"context"
 	"encoding/json"
 	"errors"
+	"fmt"
+	"os"
+	"strings"
 
 	"github.com/ddddddO/gtree"
 )
